@@ -96,7 +96,7 @@ def run(ctx):
     ]
     broken = []
     # ---- 1. regenerate the table
-    ok, log = ctx.extract("accesses", ["lean/KafkaVerif/Gen/Accesses.lean", ".build/c10/accesses.json"])
+    ok, log = ctx.extract("accesses", ["lean/KafkaVerif/Gen/Accesses.lean", "lean/KafkaVerif/Gen/Skeletons.lean", ".build/c10/accesses.json"])
     table = {"rows": [], "racy": [], "excluded": [], "unresolved": [], "confinement": [], "annotations_used": [], "fields": 0, "locks": []}
     if not ok:
         broken.append({"kind": "obligation", "name": "translator go/extract accesses", "detail": log[-1500:]})
@@ -107,6 +107,26 @@ def run(ctx):
     for c in table["confinement"]:
         broken.append({"kind": "obligation", "name": "annotation side condition violated", "detail": c})
     table_sites = {(r["file"], r["line"]) for r in table["rows"]}
+    # ---- 1b. lock facts: the compiled oracle computes the entry-lockset fixpoint and the list of table rows the
+    # verified analysis does not re-derive; the kernel re-checks both (Props/C10 §4)
+    lf = os.path.join(kv.LEAN, "KafkaVerif", "Gen", "LockFacts.lean")
+    try: os.remove(lf)
+    except FileNotFoundError: pass
+    orc, olog = ctx.oracle_build("oracle_c10")
+    lockfacts = {}
+    if orc is not None:
+        p = subprocess.run([orc, "lockfacts"], capture_output=True, text=True, timeout=300)
+        if p.returncode == 0 and "def skEntryR" in p.stdout:
+            open(lf, "w").write(p.stdout)
+            m = re.search(r"def unjustifiedOcc : List Nat := \[([^\]]*)\]", p.stdout)
+            unj = [int(x) for x in m.group(1).split(",") if x.strip()] if m else []
+            m = re.search(r"def loweredEntries : List Nat := \[([^\]]*)\]", p.stdout)
+            low = [int(x) for x in m.group(1).split(",") if x.strip()] if m else []
+            by_occ = {r.get("occ"): r for r in table["rows"]}
+            lockfacts = {"unjustified_rows": len(unj), "lowered_entries": len(low),
+                         "unjustified_sites": sorted({"%s:%d %s" % (by_occ[o]["file"], by_occ[o]["line"], by_occ[o]["func"]) for o in unj if o in by_occ})[:80]}
+        else:
+            broken.append({"kind": "obligation", "name": "oracle_c10 lockfacts failed", "detail": (p.stdout[-300:] + p.stderr[-800:])})
     # ---- 2. proofs
     res = ctx.prove(MODULE)
     if not res["ok"]:
@@ -115,7 +135,6 @@ def run(ctx):
         broken.append({"kind": "obligation", "theorems": res["failed"], "detail": res["reasons"][:10],
                        "unprotected_pairs_in_table": pairs})
     # ---- 3. race-detector validation
-    orc, olog = ctx.oracle_build("oracle_c10")
     drv, dlog = ctx.go_build("./cmd/c10", "c10race", tags="c10", race=True)
     lines, reports, scen_info = [], [], {}
     if orc is None or drv is None:
@@ -229,6 +248,9 @@ def run(ctx):
                              "global_variables": sum(1 for f in {r["field"] for r in table["rows"]} if f.startswith("global:")),
                              "pointer_aliases_followed": table.get("pointer_aliases") or [],
                              "interface_call_edges_added": table.get("interface_call_edges", 0)}
+    rows_with_real_locks = sum(1 for r in table["rows"] if [l for l in (r["locks"] or []) if ":" not in l.split(":R")[0]])
+    ctx.coverage["lockset_analysis"] = dict(lockfacts, rows_with_real_locks=rows_with_real_locks,
+                                            note="rows outside unjustified_sites: locksets re-derived by the verified analysis of the regenerated skeletons (repo_locks_held)")
     ctx.coverage["scenarios"] = scen_info
     # ---- decide
     recorded = 0
